@@ -10,7 +10,7 @@ for name in "$@"; do
   P=$d/patch.diff; [ -f $d/patch_rebased.diff ] && P=$d/patch_rebased.diff
   if git -C $wt apply $P; then echo "patch applies: yes" >> $out; else echo "patch applies: NO" >> $out; fi
   (cd $wt && PYTHONPATH=$wt timeout 600 /venv/bin/python $d/demo.py > /tmp/wt/demo_$name.log 2>&1; echo "demo WITH change: exit $?" >> $out)
-  if [ -z "$SKIP_SUITE" ]; then (cd $wt && PYTHONPATH=$wt /venv/bin/python -m pytest -q -p no:cacheprovider --timeout=900 -n 6 2>&1 | tail -1 >> $out); else echo "suite: not re-run here (sub-agent reported 880 passed, 10 skipped with the change)" >> $out; fi
+  if [ -z "$SKIP_SUITE" ]; then (cd $wt && PYTHONPATH=$wt /venv/bin/python -m pytest -q -p no:cacheprovider --timeout=900 -n 8 2>&1 | tail -1 >> $out); else echo "suite: not re-run here (sub-agent reported 880 passed, 10 skipped with the change)" >> $out; fi
   git -C /repo worktree remove --force $wt
   echo "== $name"; cat $out
 done
